@@ -64,19 +64,17 @@ Qed.
 (* a step of a task's structured statement that reaches an iteration boundary can only end with
    YieldException(true), whatever the scheduler replies on the way *)
 Lemma denote_body_boundary_yields : forall fuel (b : bstmt simple) l o l',
-  wc_free simple b = true ->
   has_boundary simple (fst (fst (bexec simple true fuel b (l_env l)))) = true ->
   leaf (denote_body_f fuel true b l) o l' -> o = OYield true.
 Proof.
-  intros fuel b l o l' Hw Hb H. unfold denote_body_f in H.
+  intros fuel b l o l' Hb H. unfold denote_body_f in H.
   destruct (bexec simple true fuel b (l_env l)) as [[its r] e'] eqn:He. cbn [fst] in Hb.
-  destruct (proj1 (task_all simple fuel) _ _ _ _ _ Hw He) as [_ G].
+  destruct (proj1 (task_all simple fuel) _ _ _ _ _ He) as [_ G].
   specialize (G Hb). subst r.
   apply leaf_do_items in H. destruct H as [l1 H]. cbn [out_of] in H. inversion H; subst. reflexivity.
 Qed.
 
 Lemma denote_task_boundary_yields_l : forall (b : bstmt simple) l o l',
-  wc_free simple b = true ->
   has_boundary simple (fst (fst (bexec simple true body_fuel b (l_env l)))) = true ->
   leaf (denote true (SBody b) l) o l' -> o = OYield true.
 Proof. intros b l o l'. exact (denote_body_boundary_yields body_fuel b l o l'). Qed.
